@@ -165,7 +165,7 @@ func VH_C13_HexJSON() {
 // per value: the two name tables are maps; every value in first position, a small set after it
 // unless ALLOPS=1); push contents are symbolic.
 func VH_C13_ASM() {
-	n := vnondetLen("elems", 1, vparam("E", 2))
+	n := vnondetLen("elems", 0, vparam("E", 2)) // incl. the empty script
 	s := Script{}
 	for i := 0; i < n; i++ {
 		if vnondetBool("is-push") {
